@@ -283,7 +283,7 @@ package helper
 //@   ensures [C20] relayedall: gOutN == gInN
 //@   ensures [C20] shutdown: gSrcClosed && gResClosed && w.stopped
 //@   ensures [C20] stoppedonce: gSrcStops == old(gSrcStops) + ite(old(w.stopped), 0, 1)
-//@   loop 1 "for" 
+//@   loop 1 "for"
 //@     invariant [C20] relayed: gOutN == gInN
 //@     invariant !gResClosed && !gSrcClosed
 //@     invariant w.stopped == old(w.stopped) && gSrcStops == old(gSrcStops)
